@@ -148,6 +148,16 @@ const char *input_class_name(int c);
 // deterministic in (cls, len, seed)
 Bytes gen_input(int cls, size_t len, uint64_t seed);
 
+// ------------------------------------------------------- dirty handles
+// With plan parameter dirty_kind != 0 every Session's lzma_stream has served
+// another coder (completely or part-way, never ended) before the scenario
+// initialises it: whatever the earlier use left in the handle or in a reused
+// coder structure must not change any result. Set by run_plan, consumed by
+// the Session constructor (defined in xzutil.cpp).
+struct DirtySpec { int kind = 0; uint64_t seed = 0; uint64_t uses = 0; };
+extern DirtySpec g_dirty;
+void dirty_preuse(lzma_stream *s);
+
 // ------------------------------------------------------------ Registry
 struct Scenario {
 	const char *prop;
